@@ -141,7 +141,7 @@ var meta = map[string]*propMeta{
 		EvalsAre: "simulated runs",
 	},
 	"C14": {
-		Level: "exploration", QuickRuns: 8000, ThoroughRuns: 60000, MemLimitKB: 6 << 20,
+		Level: "exploration", QuickRuns: 4000, ThoroughRuns: 60000, MemLimitKB: 6 << 20,
 		Rule: "one run = a valid stream of 1..4 seeded zoo values produced by the real encoder x one of 7 documented decode entry points x a drawn type map (complete / empty / partial / shuffled); the transport then delivers (a) the undamaged stream, (b) EVERY prefix of it ended by EOF and by a non-EOF reset (all cut offsets; strided only above 1200/6000 bytes), (c) 24 (quick) / 64 (thorough) drawn structure-aware damage plans of 1..3 faults (flip, set-to-tag, drop, dup, swap, insert, noise) biased to the offsets where the encoder started a write. evaluations = damaged decodes. A run is non-trivial when a fault changed the delivered stream; distinct = distinct (entry point, type-map kind, valid stream hash).",
 		Assumptions: []string{"time is measured in executed library statements (instrumented copy), memory with runtime/metrics /gc/heap/allocs:bytes; budgets are 10x the largest ratio measured on 400 undamaged streams in the same process, clamped to fixed ceilings",
 			"workers run under ulimit -v 6 GiB and a wall-clock watchdog; a worker death is attributed to the run in flight and must reproduce from (seed, run) before it is reported"},
@@ -215,7 +215,7 @@ func runWorker(m *propMeta, a workerArgs, timeout time.Duration) *procResult {
 	} else {
 		cmd = exec.Command(bin, "-test.run", "^TestWorker$", "-test.timeout", "0")
 	}
-	cmd.Env = append(os.Environ(), "VF_ARGS="+string(js), "GORACE=halt_on_error=1 exitcode=66", "GOMAXPROCS=2", "GOTRACEBACK=all")
+	cmd.Env = append(os.Environ(), "VF_ARGS="+string(js), "GORACE=halt_on_error=1 exitcode=66", "GOMAXPROCS="+gomaxprocs(m), "GOTRACEBACK=all")
 	var stderr strings.Builder
 	cmd.Stderr = &limitedWriter{w: &stderr, max: 64 << 10}
 	cmd.Stdout = nil
@@ -682,26 +682,53 @@ func main() {
 		replayPath = filepath.Join(verifDir, "replays", fmt.Sprintf("%s-%d-%s.json", prop, seed, fpHex[:10]))
 		small.ReplayCmd = fmt.Sprintf("%s/bin/check %s --replay %s", verifDir, prop, replayPath)
 		writeJSON(replayPath, small)
-		// confirm in two fresh processes
-		ok := 0
-		var lastDetail string
-		for i := 0; i < 2; i++ {
-			c, _, d, pr := replayOnce(m, replayPath)
-			if c == small.Class {
-				ok++
-				lastDetail = d
-			} else {
-				fmt.Fprintf(os.Stderr, "sup: confirm replay %d: got class %q (want %q), exit %d %s, detail %s\nstderr: %s\n", i, c, small.Class, pr.ExitCode, pr.Signal, d, firstLines(pr.Stderr, 20))
+		// confirm in fresh processes: two reproductions are required. A race whose occurrence depends on a
+		// nondeterminism source inside the library that the simulator cannot own (sync.Pool's per-P caches
+		// and its random drops under -race) may need several attempts; such a replay file is marked
+		// "intermittent" and is accepted with one reproduction, because a race report is itself conclusive.
+		confirm := func(path, class string, attempts int) (int, string) {
+			ok := 0
+			var lastDetail string
+			for i := 0; i < attempts && ok < 2; i++ {
+				c, _, d, pr := replayOnce(m, path)
+				if c == class {
+					ok++
+					lastDetail = d
+				} else {
+					fmt.Fprintf(os.Stderr, "sup: confirm replay %d: got class %q (want %q), exit %d %s\n", i, c, class, pr.ExitCode, pr.Signal)
+				}
 			}
+			return ok, lastDetail
 		}
-		if ok < 2 {
-			os.Rename(replayPath, filepath.Join(scratch, "unconfirmed.json"))
-			fmt.Fprintf(os.Stderr, "sup: violation %s of run %d did not reproduce from its replay file (%d of 2) - harness trouble, not reported\n", small.Class, small.Run, ok)
-			exit = 2
-		} else {
+		attempts := 2
+		isRace := strings.HasSuffix(small.Class, "/race")
+		if isRace {
+			attempts = 8
+		}
+		ok, lastDetail := confirm(replayPath, small.Class, attempts)
+		if ok < 2 && small.Shrunk && len(viol.Trace) > 0 {
+			// the minimised trace does not replay reliably: fall back to the original run
+			fmt.Fprintf(os.Stderr, "sup: minimised trace reproduced %d times; falling back to the unshrunk run\n", ok)
+			orig := *viol
+			orig.Property = prop
+			orig.ReplayCmd = small.ReplayCmd
+			writeJSON(replayPath, &orig)
+			small = &orig
+			ok, lastDetail = confirm(replayPath, small.Class, attempts)
+		}
+		switch {
+		case ok >= 2 || (isRace && ok >= 1):
+			if ok < 2 {
+				small.Extra = map[string]string{"intermittent": "reproduced once in several replays: the race depends on library-internal nondeterminism (e.g. sync.Pool) outside the simulator's control"}
+				writeJSON(replayPath, small)
+			}
 			fmt.Printf("violation class=%s key=%s run=%d (trace %d draws, shrink calls %d)\n%s\n", small.Class, small.Key, small.Run, len(small.Trace), small.Calls, lastDetail)
 			fmt.Printf("VIOLATION property=%s replay=%s\n", prop, replayPath)
 			exit = 1
+		default:
+			os.Rename(replayPath, filepath.Join(scratch, "unconfirmed.json"))
+			fmt.Fprintf(os.Stderr, "sup: violation %s of run %d did not reproduce from its replay file (%d reproductions) - harness trouble, not reported\n", small.Class, small.Run, ok)
+			exit = 2
 		}
 	}
 
@@ -805,4 +832,13 @@ func boolToInt(b bool) int {
 		return 1
 	}
 	return 0
+}
+
+// gomaxprocs: race workers run on one P so that library-internal per-P state (sync.Pool) is as
+// deterministic as the runtime allows; the simulator never relies on real parallelism.
+func gomaxprocs(m *propMeta) string {
+	if m.Race {
+		return "1"
+	}
+	return "2"
 }
